@@ -148,7 +148,12 @@ def run_shard(acc, prop, tier, seed, shard, nshards, **kw):
         canary_fn(acc, srv)
     finally:
         srv.close()
-    _w.shard(acc, PROP, tier, seed, shard, nshards, factory, WEIGHTS, (8, (120, 200)), (220, (120, 300)), CORR)
+    def exotic_probe(world, gen_):
+        from .. import exotic
+        exotic.probe(world, gen_, acc, "C06")
+        return []
+    _w.shard(acc, PROP, tier, seed, shard, nshards, factory, WEIGHTS, (8, (120, 200)), (220, (120, 300)), CORR,
+             post_hook=exotic_probe, post_every=(2, 3))
 
 
 def floors(acc, tier):
@@ -160,6 +165,7 @@ def floors(acc, tier):
     _w.need(acc, msgs, "mono_pairs_compared", 30000)
     _w.need(acc, msgs, "sys_quotes_judged", 4000)
     _w.need(acc, msgs, "sys_swaps_judged", 3000)
+    _w.need(acc, msgs, "exotic_swaps_ok", 100)
     if not any(k.startswith("fn|") and k.endswith("c_edge") for k in acc.classes):
         msgs.append("edge commission rates never used")
     return msgs
